@@ -307,6 +307,79 @@ def rule_lp2(prog, rep, units, rid='LP2'):
                                       % (f.name, head.line, buf, x.get('_line'), why))
 
 
+def rule_lp3(prog, rep, units, rid='LP3'):
+    """After a buffer was replaced by a rewritten text, a cursor into the NEW text is either its start or the result of a
+    search in the new text.  `cursor = newtext + k` with a k that is not a constant (an offset measured in the old text, a
+    length of something else) may lie beyond the new terminator - replacing ALL occurrences can shorten the text in front of
+    the remembered position - unless k was compared with the new text's length."""
+    rep.rule(rid, 'inside a rewrite-and-rescan loop a cursor into the new text is its start or a search result, not new text + an offset '
+                  'carried over from the old text')
+    for u in units:
+        prog.unit(u)
+        for f in sorted(prog.funcs_in(u), key=lambda x: x.line or 0):
+            if f.body is None:
+                continue
+            cfg = f.cfg
+            for (head, stmt) in cfg.loops:
+                if head.id not in cfg.reachable:
+                    continue
+                body = _natural_body(cfg, head, stmt)
+                freed, news = set(), set()
+                for i in body:
+                    m = cfg.nodes[i]
+                    if not isinstance(m.ast, dict) or m.kind == 'macro':
+                        continue
+                    for y in walk(m.ast):
+                        if y.get('kind') == 'CallExpr' and prog.callee_name(y) == 'free' and len(children(y)) > 1:
+                            freed.add(canon(children(y)[1]))
+                for i in body:
+                    m = cfg.nodes[i]
+                    if not isinstance(m.ast, dict) or m.kind == 'macro':
+                        continue
+                    for y in walk(m.ast):
+                        lhs = rhs = None
+                        if y.get('kind') == 'BinaryOperator' and y.get('opcode') == '=':
+                            lhs, rhs = canon(children(y)[0]), strip(children(y)[1])
+                        elif y.get('kind') == 'VarDecl' and var_init(y) is not None:
+                            lhs, rhs = y.get('name'), strip(var_init(y))
+                        if rhs is not None and rhs.get('kind') == 'CallExpr' and prog.callee_name(rhs) not in PURE and \
+                                any(canon(a) in freed for a in children(rhs)[1:]):
+                            news.add(lhs)           # the rewritten text
+                if not news:
+                    continue
+                # buffer variables that receive the new text
+                bufs = set(news)
+                for i in body:
+                    m = cfg.nodes[i]
+                    if isinstance(m.ast, dict) and m.kind != 'macro':
+                        for y in walk(m.ast):
+                            if y.get('kind') == 'BinaryOperator' and y.get('opcode') == '=' and canon(children(y)[1]) in news:
+                                bufs.add(canon(children(y)[0]))
+                for i in sorted(body):
+                    m = cfg.nodes[i]
+                    if not isinstance(m.ast, dict) or m.kind == 'macro':
+                        continue
+                    for y in walk(m.ast):
+                        if not (y.get('kind') == 'BinaryOperator' and y.get('opcode') == '='):
+                            continue
+                        r = strip(children(y)[1])
+                        if r.get('kind') == 'BinaryOperator' and r.get('opcode') == '+':
+                            a, b = [strip(z) for z in children(r)]
+                            for (base, off) in ((a, b), (b, a)):
+                                if canon(base) in bufs and int_value(off) is None and (qtype(base) or '').rstrip().endswith('*') and any(
+                                        z.get('kind') == 'DeclRefExpr' and (z.get('_ref') or ('',))[0] in ('local', 'param') for z in walk(off)):
+                                    rep.instance(rid)
+                                    # guarded by a comparison of the offset with strlen(new text)?
+                                    guarded = any(isinstance(cfg.nodes[j].ast, dict) and cfg.nodes[j].kind == 'cond' and
+                                                  canon(off) in canon(cfg.nodes[j].ast) and 'strlen(' in canon(cfg.nodes[j].ast) for j in body)
+                                    rep.oblige(rid, guarded, {'function': f.name, 'cursor': canon(y)[:60]})
+                                    if not guarded:
+                                        rep.violation(rid, f, y.get('_line'), 'stale-offset:%s' % canon(off)[:20],
+                                                      '%s: %s positions a cursor in the rewritten text %s at the offset %s, which is not '
+                                                      'compared with the new text\'s length: when the rewrite shortened the text in front of it '
+                                                      'the cursor lies beyond the terminator' % (f.name, canon(y)[:60], canon(base), canon(off)))
+
+
 def _natural_body(cfg, head, stmt):
     """ids of the CFG nodes of the loop statement itself (not of the loops around it)"""
     scc = _loop_nodes(cfg, head)
